@@ -18,6 +18,19 @@ NA = {
 }
 
 CHECKS = {
+ 'C11': dict(machine='M-PEER', level='fault_enumeration', design='3/C11',
+   text='Solver engines run as peers behind pass-through proxies. For every generated program (LP, MILP with user bounds on '
+        'binaries/integers, SOCP, MISOCP, exp-cone; feasible/infeasible/unbounded) every capable interface is called with random '
+        'display/log settings and EVERY documented failure return of its engine (complete table per engine: HiGHS status 1-4 x '
+        '{no x, stale x, garbage x}, ECOS exit flags, OR-Tools result codes and missing solver, Gurobi statuses with and without '
+        'incumbent, engine exceptions) is injected once, plus stdout and clock faults. Failed calls must report no solution '
+        '(get/read-back raise, optimal() False, no new solution after an exception); healthy calls must agree across interfaces and '
+        'satisfy the pre-solve snapshot of the compiled program (bounds, senses, cones, integrality); the call after a failure must be '
+        'right again. The failure table is enumerated completely per program; programs are sampled.',
+   note='Trusted: healthy engines (their agreement is the cross-check), faithfulness of the stubbed failure returns to the engine '
+        'APIs (one of them, Gurobi stopping at SOLUTION_LIMIT with an incumbent, is also reproduced with the real engine). Not '
+        'exercised: clp/cpx/msk/cpt interfaces (engines not installed), LMI programs, ECOS_BB on integer programs.',
+   technique='deterministic simulation with fault enumeration: real engines behind proxies, every documented failure return injected per interface'),
  'C13': dict(machine='M-PART', level='exploration', design='3/C13',
    text='Seeded search over adaptation histories: sequences of event-wise and affine adapt() calls (whole decisions and slices, '
         'random scenario labellings, interleaved with other declarations) build partitions and dependency masks; a closed-form '
@@ -78,6 +91,7 @@ def build():
         },
         'engines': [
             {'name': 'M-HIST', 'path': 'machines/hist.py', 'serves_properties': ['C09'], 'kind_free_text': 'build-history simulator (schedules + engine faults)'},
+            {'name': 'M-PEER', 'path': 'machines/peer.py', 'serves_properties': ['C11'], 'kind_free_text': 'solver engines as faulty peers behind pass-through proxies'},
             {'name': 'M-PART', 'path': 'machines/part.py', 'serves_properties': ['C12', 'C13'], 'kind_free_text': 'adaptation-history simulator (partitions, dependency masks, read-back)'},
         ],
         'checks': checks,
